@@ -53,7 +53,14 @@ theorem cancelTracked_eq (bs : List Browser) :
 /-- `cancel()` from another thread: the queue is drained (join), the entry forgotten -/
 theorem syncCancel_eq (b : Browser) :
     syncCancel b = { b with cancelled := true, timer := false, listening := false, queued := 0, zcTracked := false } := by
-  simp [syncCancel, asyncCancel_eq, cancelJoins_eq, remove_listener_forgets_holds]
+  simp [syncCancel, asyncCancel_eq, cancelJoins_eq, remove_listener_forgets_holds, thread_cancel_schedules_async_cancel_holds]
+
+/-- the timeout handle of a wait and the notification both leave a finished future alone (`_set_future_none_if_not_done`) -/
+theorem timerOnFinished_eq : timerOnFinished = [] := by
+  simp [timerOnFinished, waiter_timer_guarded_holds, waiter_guard_skips_done]
+
+theorem notifyOnFinished_eq : notifyOnFinished = [] := by
+  simp [notifyOnFinished, resolve_all_guarded_holds, waiter_guard_skips_done]
 
 theorem gated_sub (h : Host) (l : List Out) : gated h l = [] ∨ gated h l = l := by
   unfold gated
@@ -596,7 +603,7 @@ theorem mid_step (h : Host) (b : Block) (hb : b.mid = true) (nog : ∀ i, b ≠ 
   have hbody : ∀ s, count isGoodbye (closeBody h s).2.1 = 0 := by
     intro s; simp [closeBody, hreg, count]
   cases b with
-  | recv s q d u da =>
+  | recv s q d u da aa =>
     simp only [step] at hs
     split at hs
     · simp at hs
@@ -709,6 +716,38 @@ theorem mid_step (h : Host) (b : Block) (hb : b.mid = true) (nog : ∀ i, b ≠ 
         · simp only [Option.some.injEq, Prod.mk.injEq] at hs
           obtain ⟨rfl, rfl⟩ := hs
           exact ⟨rfl, rfl, hreg, h0, rfl⟩
+  | waitStart =>
+    simp only [step, Option.some.injEq, Prod.mk.injEq] at hs
+    obtain ⟨rfl, rfl⟩ := hs
+    exact ⟨rfl, rfl, hreg, h0, rfl⟩
+  | notifyAll =>
+    simp only [step, Option.some.injEq, Prod.mk.injEq] at hs
+    obtain ⟨rfl, rfl⟩ := hs
+    refine ⟨rfl, rfl, hreg, h0, ?_⟩
+    split
+    · rw [notifyOnFinished_eq]; rfl
+    · rfl
+  | waitFire i =>
+    simp only [step] at hs
+    split at hs
+    · simp only [Option.some.injEq, Prod.mk.injEq] at hs
+      obtain ⟨rfl, rfl⟩ := hs
+      exact ⟨rfl, rfl, hreg, h0, rfl⟩
+    · simp only [Option.some.injEq, Prod.mk.injEq] at hs
+      obtain ⟨rfl, rfl⟩ := hs
+      refine ⟨rfl, rfl, hreg, h0, ?_⟩
+      rw [timerOnFinished_eq]; rfl
+    · simp at hs
+  | waitResume i =>
+    simp only [step] at hs
+    split at hs
+    · simp only [Option.some.injEq, Prod.mk.injEq] at hs
+      obtain ⟨rfl, rfl⟩ := hs
+      exact ⟨rfl, rfl, hreg, h0, rfl⟩
+    · simp only [Option.some.injEq, Prod.mk.injEq] at hs
+      obtain ⟨rfl, rfl⟩ := hs
+      exact ⟨rfl, rfl, hreg, h0, rfl⟩
+    · simp at hs
   | closeCall sync =>
     simp only [step] at hs
     split at hs
@@ -964,7 +1003,9 @@ theorem loopError_site (h : Host) (b : Block) (h' : Host) (o : List Out) (hs : s
           | exact not_loopError_replicate _ _ (by intro hh; cases hh) he
           | (split at he
              · simp at he
-             · exact not_loopError_replicate _ _ (by intro hh; cases hh) he)))
+             · exact not_loopError_replicate _ _ (by intro hh; cases hh) he)
+          | (rw [timerOnFinished_eq] at he; simp at he; done)
+          | (rw [notifyOnFinished_eq] at he; simp at he; done)))
 
 /-! ### every close call makes progress, and nobody else moves its program counter -/
 
@@ -1163,7 +1204,7 @@ theorem ZcInv_step (h : Host) (b : Block) (h' : Host) (o : List Out) (hz : ZcInv
     intro b _ _ hzt
     cases hzt
   cases b with
-  | recv s q d u da =>
+  | recv s q d u da aa =>
     simp only [step] at hs
     split at hs
     · simp at hs
@@ -1294,7 +1335,7 @@ theorem QueuesEmpty_step (h : Host) (b : Block) (h' : Host) (o : List Out) (hq :
   have hct : ∀ b : Browser, emptyB b → b.tracked = true → emptyB { b with cancelled := true, timer := false, listening := false } :=
     fun b hb _ => hb
   cases b with
-  | recv s q d u da => simp [step, ht] at hs
+  | recv s q d u da aa => simp [step, ht] at hs
   | cleanupFire e => simp [step, hcl] at hs
   | apiBrowse tr rp th zt => simp [Block.isBrowse] at hnb
   | schedFire i q =>
@@ -1454,7 +1495,7 @@ theorem LoopInv'_append (lt lr : Bool) (cl : List Close) (c : Close) (hc : c.sta
     exact l3 a b ca cb (key a ca ha sa) (key b cb hb sb) sa sb
 
 /-- `LoopInv` is preserved by every block except a sync close entering `_shutdown_threads()` while another one is
-about to stop the loop (finding D32) -/
+about to stop the loop (finding D34) -/
 theorem LoopInv_step (h : Host) (b : Block) (h' : Host) (o : List Out) (hl : LoopInv h) (hn : b.overlapsStop h = false)
     (hs : step h b = some (h', o)) : LoopInv h' := by
   have hns : ∀ k, CStage.unregistering k ≠ .stopping := by intro k hh; cases hh
